@@ -67,14 +67,23 @@ def main():
             caught = any(o['rc'] == 1 and o['violations'] for o in out)
             others = {}
             if not caught:
-                # the change may break a neighbouring property as well: try the other claimed checks (quick)
+                # the change may break a neighbouring property as well: try the checks of the properties that
+                # share an anchored file with the patch (quick); SEEDED_OTHERS=all tries every check, =0 none.
+                # A run whose driver did not build (model-compared 0 + no-failing-input-found) is infrastructure
+                # trouble of that moment, not a catch.
                 man = json.load(open(os.path.join(V, 'MANIFEST.json')))
+                mode = os.environ.get('SEEDED_OTHERS', 'anchors')
+                touched = set(meta.get('files_touched', []))
+                props = {json.loads(l)['id']: json.loads(l) for l in open(os.path.join(V, 'properties.jsonl'))}
                 for c in man['checks']:
                     q = c['property_id']
-                    if q == pid:
+                    if q == pid or mode == '0':
+                        continue
+                    if mode != 'all' and not (touched & set(props[q]['anchors']['files'])):
                         continue
                     o = run_check(q, 'quick', env)
-                    if o['rc'] == 1 and o['violations']:
+                    real = [v for v in o['violations'] if 'no-failing-input-found' not in v]
+                    if o['rc'] == 1 and real:
                         others[q] = o
             results[sid] = {'property': pid, 'caught': caught, 'runs': out,
                             'by': next((o['tier'] for o in out if o['rc'] == 1), None),
